@@ -8,7 +8,7 @@ SPEC = {
     "proof_targets": ["Base/Utf8Proofs.vo", "Compiler/AccountingProofs.vo", "Parser/MachineProofs.vo"],
     "assumptions": [
         "panics, stack exhaustion, hangs and the rendering of diagnostics are run-time facts: they are observed per generated input in a child process (512 MiB stack thread, 60 s per case), not proved",
-        "rule accounting is proved over a model whose arms (build_ast's Ok/Abort/MaxDepthReached arms, c_items' Err arm, c_rule's tolerated-error arms) are regenerated from the source; that an aborted rule carries at least one error is a hypothesis of ast_no_rule_lost_guarded, evaluated by S on every input (accepted without errors => every declared rule is built or ignored)",
+        "rule accounting is proved over a model whose arms (build_ast's Ok/Abort/MaxDepthReached arms, c_items' Err arm, c_rule's tolerated-error arms) are regenerated from the source; that an aborted rule carries at least one error is a hypothesis of ast_no_rule_lost, evaluated by S on every input (accepted without errors => every declared rule is built or ignored)",
         "the UTF-8 model follows the maximal-subpart rule of std::str::from_utf8; the compiler uses bstr::to_str, which K compares through the span of the reported E032 label",
         "parser totality (no engine assert fires, the interpreter is structurally recursive) is the C10 theorem lossless_balanced over Parser/Machine.v",
     ],
@@ -45,7 +45,7 @@ def classify(case):
 
 def run_k(run, tier, seed, drv):
     n = 500 if tier == "quick" else 8000
-    nest = 150 if tier == "quick" else 700
+    nest = 150 if tier == "quick" else 1500
     info = standard_k(run, drv, "C09", "c09", ["--seed", seed, "--n", n, "--max-nest", nest],
                       "K_C09_utf8_span_and_rule_accounting", classify)
     info["rule"] = RULE
@@ -66,14 +66,14 @@ MANIFEST = {
     "level_text": ("Machine-checked proofs (Coq): (1) the span add_source reports for a source that is not valid UTF-8 lies inside the "
                    "lossily converted source on character boundaries, for every byte string (model of from_utf8's valid_up_to/error_len "
                    "and of from_utf8_lossy); (2) rule accounting: every rule item reaches `rules` or `ignored_rules`, a failed one also "
-                   "`errors`, and every declared rule becomes an item or leaves an error unless its builder stopped at MAX_AST_DEPTH - "
-                   "over a model whose arms are regenerated from cst2ast.rs/compiler/mod.rs; the unguarded statement is refuted "
-                   "(ast_no_rule_lost_refuted) and the witness is replayed on the implementation; (3) the parser engine is total and "
+                   "`errors`, and every declared rule becomes an item or leaves an error (also when its builder stops at MAX_AST_DEPTH) - "
+                   "over a model whose arms are regenerated from cst2ast.rs/compiler/mod.rs (incl. that Builder::begin reports the depth limit); the "
+                   "inputs of the repaired defects are replayed on the implementation on every run; (3) the parser engine is total and "
                    "never trips an assert (C10 theorem). Panics, stack exhaustion, hangs, build(), rendering and label spans are "
                    "observed per generated input in a child process and evaluated by a boolean specification in Coq."),
     "level_note": ("The no-panic/no-overflow/no-hang part of the property is run-time evidence on generated inputs, not a proof. "
-                   "Known findings: a rule nested deeper than MAX_AST_DEPTH (3000 CST levels, about 750 nested parentheses) is dropped "
-                   "silently; `for .. in (0x7ffffffffffffffe..0x7fffffffffffffff)` panics with overflow checks on."),
+                   "Repaired on this tree (inputs kept in the corpus, a regression is a VIOLATION): rules nested deeper than "
+                   "MAX_AST_DEPTH were dropped silently; overflow panic in Iterable::num_iterations."),
     "technique": "Coq proofs over source-generated tables + models, differential correspondence and child-process observation (vm_compute)",
     "design_ref": "DESIGN.md section 4, C09",
 }
